@@ -62,8 +62,12 @@ package keeper
 //@   loop 3 invariant EvN == old(EvN) && EvLog == old(EvLog) && 0 <= len(attr) && len(attr) <= cap(attr) && (arr(attr) == nil || freshloop(attr) || arr(attr) == atloop(arr(attr)))
 //@   ensures [announced] result == nil ==> EvN == old(EvN) + 1
 //@   ensures [quiet] result != nil ==> EvN == old(EvN)
+// (C08: a withdrawn attestation must not keep counting) the record is removed when the last attribute is withdrawn and
+// rewritten only when something is left
 //@ func (Keeper).DeleteProviderAttributes
 //@   modifies ghost KVhas, ghost KVval, ghost G, ghost EvN, ghost EvLog
+//@   oncall types.(KVStore).Delete 2 assert len(attr) == 0
+//@   oncall types.(KVStore).Set 1 assert len(attr) > 0
 //@   loop 1 modifies kv[*]
 //@   loop 1 invariant 0 <= iter && EvN == old(EvN) && EvLog == old(EvLog)
 //@   loop 2 modifies kv[*]
@@ -74,3 +78,4 @@ package keeper
 //@   ensures [quiet] result != nil ==> EvN == old(EvN)
 
 //@ property C16 := (Keeper).CreateOrUpdateProviderAttributes#*, (Keeper).DeleteProviderAttributes#*
+//@ property C08 := (Keeper).DeleteProviderAttributes#assert@*
